@@ -88,8 +88,8 @@ def check(spec):
                 try:
                     T.scale_strength(f)
                 except AssertionError:
-                    # KDRandomRotation asserts lb == ub before changing anything: no strength history for this case
-                    return
+                    # KDRandomRotation asserts lb == ub; both instances are treated alike (a compose stops at the same member)
+                    pass
     _scale(spec.get("pre_scale"))
     try:
         A.set_rng(np.random.default_rng(s))
